@@ -585,7 +585,9 @@ func Run(rep *core.Report, args *core.Args, sel Select) {
 		go func() {
 			defer wg.Done()
 			for j := range ch {
-				if clusterOps[j.c.Op] {
+				if j.c.Op == "role_change" {
+					roleChange(rep, sel, j.c, j.l)
+				} else if clusterOps[j.c.Op] {
 					sweepCluster(rep, sel, j.c, j.l)
 				} else {
 					sweep(rep, sel, j.c, j.l, j.v)
@@ -988,4 +990,4 @@ func inList(l []string, x string) bool {
 }
 
 // LocalKinds are the kinds of fault that happen on the node itself (no broken stream).
-var LocalKinds = []string{"error", "unreadable", "unwritable", "notify"}
+var LocalKinds = []string{"error", "unreadable", "unwritable", "notify", "lease"}
